@@ -82,9 +82,9 @@ def discharge(ob, timeout_ms, use_cvc5=True, want_candidate=True):
         def _alarm(*_):
             raise _TO()
         old = signal.signal(signal.SIGALRM, _alarm)
-        signal.alarm(max(5, int(timeout_ms / 1000 * 3)))
+        signal.alarm(300)
         try:
-            st_, why = sympy_backend.prove(ob.pc, g, timeout_s=timeout_ms / 1000, hyps=ob.info.get("hyps"))
+            st_, why = sympy_backend.prove(ob.pc, g, timeout_s=280, hyps=ob.info.get("hyps"))
         except _TO:
             st_, why = "unknown", "sympy timeout"
         except Exception as e:
@@ -124,6 +124,8 @@ def discharge(ob, timeout_ms, use_cvc5=True, want_candidate=True):
     if r == z3.sat:
         return {"status": "refuted", "backend": "z3", "seconds": dt, "model": s.model()}
     reason = s.reason_unknown()
+    if ob.info.get("backend") == "sympy":
+        reason = f"sympy: {sympy_reason}; z3: {reason}"
     if use_cvc5 and ob.info.get("backend") != "sympy":
         r2 = cvc5_check(s, timeout_ms)
         dt = time.time() - t0
